@@ -170,13 +170,19 @@ theorem plainError_E (c : Conn) : E c c.plainError.1 := by
   split
   · exact E.refl c
   · split
-    · cases hf : c.db.takeFault .rollback with
-      | mk o db1 =>
-        have hs : DataOnly c.db db1 := by
-          have := takeFault_dataOnly c.db .rollback; rw [hf] at this; exact this
-        cases o with
-        | some _ => exact E.of_data c db1 hs
-        | none => exact E.of_data c _ (hs.trans (rollback_dataOnly db1))
+    · split
+      · exact E.refl c
+      · cases hf : c.db.takeFault .rollback with
+        | mk o db1 =>
+          have hs : DataOnly c.db db1 := by
+            have := takeFault_dataOnly c.db .rollback; rw [hf] at this; exact this
+          cases o with
+          | some k =>
+            cases k with
+            | err => exact E.of_data c db1 hs
+            | disc => exact (E.of_data c db1 hs).trans (discError_E _)
+            | kbi => exact (E.of_data c db1 hs).trans (discError_E _)
+          | none => exact E.of_data c _ (hs.trans (rollback_dataOnly db1))
     · exact E.refl c
 
 theorem kbiError_E (c : Conn) : E c c.kbiError.1 := by
@@ -241,7 +247,9 @@ theorem execute_E (c : Conn) (q : Sql) : E c (c.execute q).1 := by
 theorem rollbackImpl_E (c : Conn) : E c c.rollbackImpl.1 := by
   unfold Conn.rollbackImpl
   split
-  · exact dbapiCall_E c .rollback DB.rollback rollback_dataOnly
+  · split
+    · exact E.refl c
+    · exact dbapiCall_E c .rollback DB.rollback rollback_dataOnly
   · exact E.refl c
 
 theorem rootCloseImpl_E (c : Conn) (h : Nat) (b : Bool) : E c (c.rootCloseImpl h b).1 := by
